@@ -734,23 +734,7 @@ class Intrinsics:
                 return outs
             if k == 'pyv':
                 # dict lookup on a JSON dict
-                kt = self.to_pyv(key)
-                outs = []
-                isd = J.is_dict(cont.t)
-                for (s0, d) in eng.branch(st, isd, 'D%d' % node.lineno):
-                    if not d:
-                        if isinstance(key, str) or (isinstance(key, Sym) and key.ty.kind == 'str'):
-                            # a str subscript on a list/str/number/None is a TypeError
-                            outs.append((s0, Raise(new_exc('TypeError'))))
-                            continue
-                        raise Unsupported('subscript of non-dict pyv')
-                    for (s1, present) in eng.branch(s0, J.kmem(kt, PyV.kvs(cont.t)),
-                                                    'K%d' % node.lineno):
-                        if present:
-                            outs.append((s1, Sym(J.klookup(kt, PyV.kvs(cont.t)), PYV)))
-                        else:
-                            outs.append((s1, Raise(new_exc('KeyError'))))
-                return outs
+                return self._pyv_item(eng, st, cont, key, node)
             if k == 'list' and self._is_int(key):
                 i = lift(key)
                 outs = []
@@ -762,6 +746,64 @@ class Intrinsics:
                         raise Unsupported('possibly out-of-range/negative list index')
                 return outs
         return self.get_item_extra(eng, st, cont, key, node)
+
+    def _pyv_item(self, eng, st, cont, key, node):
+        outs = []
+        const_idx = isinstance(key, int) and not isinstance(key, bool) and key >= 0
+        strkey = isinstance(key, str) or (isinstance(key, Sym) and key.ty.kind == 'str')
+        if const_idx:
+            # constant index into a JSON list / tuple: hd(tl^key(items)); an index past the end
+            # is an IndexError
+            rest = []
+            for (s0, isl) in eng.branch(st, z3.Or(PyV.is_PList(cont.t), PyV.is_PTuple(cont.t)),
+                                        'L%d' % node.lineno):
+                if not isl:
+                    rest.append(s0)
+                    continue
+                tails = self._tails(cont.t, key)
+                inr = z3.And([PyVs.is_cons(x) for x in tails])
+                for (s1, ok) in eng.branch(s0, inr, 'I%d' % node.lineno):
+                    if ok:
+                        outs.append((s1, Sym(PyVs.hd(tails[-1]), PYV)))
+                    else:
+                        outs.append((s1, Raise(new_exc('IndexError'))))
+        else:
+            rest = [st]
+        kt = self.to_pyv(key)
+        for st0 in rest:
+            for (s0, d) in eng.branch(st0, J.is_dict(cont.t), 'D%d' % node.lineno):
+                if not d:
+                    if strkey:
+                        # a str subscript on a list/str/number/None is a TypeError
+                        outs.append((s0, Raise(new_exc('TypeError'))))
+                        continue
+                    if const_idx:
+                        for (s1, iss) in eng.branch(s0, PyV.is_PStr(cont.t), 'S%d' % node.lineno):
+                            if iss:
+                                # one character of a str, or IndexError
+                                ch = z3.FreshConst(StrS, 'ch')
+                                outs.append((s1, Sym(PyV.PStr(ch), PYV)))
+                                outs.append((s1, Raise(new_exc('IndexError'))))
+                            else:
+                                outs.append((s1, Raise(new_exc('TypeError'))))
+                        continue
+                    raise Unsupported('subscript of non-dict pyv')
+                for (s1, present) in eng.branch(s0, J.kmem(kt, PyV.kvs(cont.t)),
+                                                'K%d' % node.lineno):
+                    if present:
+                        outs.append((s1, Sym(J.klookup(kt, PyV.kvs(cont.t)), PYV)))
+                    else:
+                        outs.append((s1, Raise(new_exc('KeyError'))))
+        return outs
+
+    @staticmethod
+    def _tails(t, n):
+        items = z3.If(PyV.is_PList(t), PyV.litems(t), PyV.titems(t))
+        out = [items]
+        for _ in range(n):
+            items = PyVs.tl(items)
+            out.append(items)
+        return out
 
     def get_item_extra(self, eng, st, cont, key, node):
         raise Unsupported('subscript of %r' % (cont,))
@@ -1055,6 +1097,10 @@ class Intrinsics:
                 st.assume(z3.Length(l) == z3.Length(src.t))
                 st.assume(z3.ForAll([i], z3.Implies(z3.And(i >= 0, i < z3.Length(l)),
                                                     l[i] == src.t[z3.Length(l) - 1 - i])))
+                # (consequence stated explicitly: same elements)
+                xr = z3.Const('qx!rev', ety.sort())
+                st.assume(z3.ForAll([xr], z3.Contains(l, z3.Unit(xr))
+                                    == z3.Contains(src.t, z3.Unit(xr))))
                 return Sym(l, src.ty, fresh=True)
         raise Unsupported('list(%r)' % (v,))
 
@@ -1202,6 +1248,15 @@ class Intrinsics:
 
     def i_os_path_normcase(self, eng, st, f, pos, kws, node):
         return [(st, pos[0])]
+
+    def i_os_path_isabs(self, eng, st, f, pos, kws, node):
+        return [(st, Sym(z3.Function('isabs', StrS, BoolS)(lift(pos[0])), BOOL))]
+
+    def i_os_path_normpath(self, eng, st, f, pos, kws, node):
+        return [(st, Sym(z3.Function('normpath', StrS, StrS)(lift(pos[0])), STR))]
+
+    def i_os_getcwd(self, eng, st, f, pos, kws, node):
+        return [(st, Sym(z3.Const('cwd', StrS), STR))]
 
     def i_os_path_dirname(self, eng, st, f, pos, kws, node):
         return [(st, Sym(dirname(lift(pos[0])), STR))]
